@@ -20,6 +20,13 @@ TABLE = {
             "bools, signed zeros, infinities, huge ints, the same as scores, omitted) are run through the real rate() of all five models and "
             "must give bit-identical posteriors, the canonical one inside the reference interval.", "§6 C03",
             "reference model for the canonical encoding; IEEE bit patterns for identity"),
+    "C14": ("model_checking", "explicit-state BFS over call histories on the real code + stateless schedule exploration with iterative preemption bounding + hash-seed alphabet",
+            "E2: every history of depth <= 2 (thorough: 3) over a 256-call alphabet is executed on the real code for 5 classes x 4 model "
+            "configs; every transition is checked for an unchanged model (I1) and bit-identity with the same call on fresh objects (I2). "
+            "E3: every schedule with <= 1 (thorough: 2) preemptions of six 2-3-thread harnesses at line and opcode granularity; each thread "
+            "must return exactly its solo result.  The exploration is repeated under 4 hash seeds with different rating ids and must "
+            "produce one digest.", "§3-E2, §3-E3, §6 C14",
+            "CPython GIL atomicity of C-level calls; sys.settrace line/opcode events as scheduling points; uuid4 replaced by a counter"),
     "C15": ("exploration", "bounded-exhaustive metamorphic comparison of two real executions (per-call option vs. model-level option)",
             "On every game of S2 and T3 (sigma alphabet extended so tau and the clamp are visible) x every weak order, 24 comparisons "
             "Model(s').rate(g, option) == Model(option).rate(g) incl. tau=0 / 0.0 / 1e-300, explicit None and mixed options, "
@@ -60,7 +67,7 @@ def build():
             "thorough_cmd": f"bin/check {pid} --tier thorough",
             "evidence_file": f"/verif/evidence/{pid}.json",
             "replay_cmd_template": f"bin/check {pid} --replay {{path}}",
-            "engine": "E4" if pid == "C17" else "E1",
+            "engine": {"C17": "E4", "C14": "E2+E3"}.get(pid, "E1"),
             "level_claimed": {"category": level, "text": text, "design_ref": ref_},
             "level_note": trusted,
             "technique": technique,
